@@ -4,7 +4,7 @@
    re-checked here in exact arithmetic: norms by n^2 ~ sum of squares, the assignment against the brute force
    over all r! matchings (by VALUE: ties are allowed), the SVD by U^T U ~ I and U S V^T ~ M. *)
 From Coq Require Import List Arith ZArith QArith Qabs Bool.
-From TLV Require Import Base.Shape Base.PyList Base.Tensor Base.Ops Model.Metrics Corr.Common.
+From TLV Require Import Base.Shape Base.PyList Base.Tensor Base.Ops Model.Metrics Model.MetricsSrc Corr.Common.
 Import ListNotations.
 
 Definition tol : Q := Qmake 1 1000000000.          (* 1e-9 : values through sqrt / division *)
@@ -52,7 +52,7 @@ Fixpoint reval (ax : option nat) (args : list (tensor Q)) (e : rexp) : bool * te
 Definition rev (ax : option nat) (args : list (tensor Q)) (e : rexp) : tensor Q := snd (reval ax args e).
 
 (* what the translated source must equal, per function (numbering = REG in C20.py) *)
-Definition src_agree (which : nat) (ax : option nat) (yt yp : tensor Q) (f : rform) : bool :=
+Definition src_agree_reg (which : nat) (ax : option nat) (yt yp : tensor Q) (f : rform) : bool :=
   match which, f with
   | 0%nat, RPlain e => qt_eqb (rev ax [yt; yp] e) (MSE Qops ax yt yp)
   | 1%nat, RSqrt e => qt_eqb (rev ax [yt; yp] e) (MSE Qops ax yt yp)
@@ -73,7 +73,12 @@ Inductive body :=
                (impl : res (list (list Q * list (mat Q) * list nat)))
 | KCorrIdx (meth : option cmethod) (ctol : Q) (f1 f2 : list (mat Q)) (n1 n2 : list (list Q)) (impl : res Q)
 | KLev (renorm : bool) (ltol : Q) (M U Vt : mat Q) (sv : list Q) (eps : Q) (impl : res (list Q))
-| KReg (which : nat) (axz : option Z) (yt yp : tensor Q) (exact : bool) (impl : res (tensor Q)) (src : option rform).
+| KReg (which : nat) (axz : option Z) (yt yp : tensor Q) (exact : bool) (impl : res (tensor Q)) (src : option rform)
+| KRegT (which : nat) (zs : list Z) (yt yp : tensor Q) (exact : bool) (impl : res (tensor Q))     (* axis = a tuple of integers *)
+(* source tie for factors.py / similarity.py / leverage_scores.py (Model/MetricsSrc.v): used ONLY when the decision record
+   extracted from the current source is not the canonical one (for which Proofs/MetricsSrcTie.v covers all inputs): the
+   interpretation of the extracted record is then compared with the model on this case, exactly *)
+| KSrc (scs : option cong_src) (sci : option ci_src) (slv : option lev_src) (b : body).
 Definition case := (nat * body)%type.
 
 Fixpoint forallb2 {A B} (f : A -> B -> bool) (l : list A) (l' : list B) : bool :=
@@ -232,8 +237,63 @@ Definition agree_reg (which : nat) (ax : option nat) (yt yp : tensor Q) (exact :
     end
   end.
 
-Definition agree (c : case) : bool :=
-  match snd c with
+(* axis given as a tuple: MSE / RMSE / reflective correlation reduce over all listed axes; the covariance family indexes a
+   Python list with the tuple and raises whatever the tuple is *)
+Definition is_err {X} (r : res X) : bool := match r with Err => true | Ok _ => false end.
+Definition agree_regT (which : nat) (zs : list Z) (yt yp : tensor Q) (exact : bool) (impl : res (tensor Q)) : bool :=
+  match which with
+  | 0%nat | 1%nat | 6%nat =>
+    match norm_axes zs (ndim yt), impl with
+    | Err, Err => true
+    | Ok axs, Ok v =>
+      match which with
+      | 0%nat => close_t exact v (MSE_axes Qops axs yt yp)
+      | 1%nat => nonneg_t v && close_t false v (RMSE_axes Qops qsqrt axs yt yp)
+      | _ => ratio_t v (refl_parts_axes Qops axs yt yp) && close_t false v (reflective_correlation_axes Qops qsqrt axs yt yp)
+      end
+    | _, _ => false
+    end
+  | _ => is_err impl
+  end.
+
+Definition cmat_res_eqb (a b : res (nat * mat Q)) : bool :=
+  match a, b with
+  | Err, Err => true
+  | Ok (r1, C1), Ok (r2, C2) => Nat.eqb r1 r2 && mat_eqb C1 C2
+  | _, _ => false
+  end.
+Definition src_cong_ok (s : option cong_src) absv As Bs nas nbs : bool :=
+  match s with
+  | None => true
+  | Some cs => cmat_res_eqb (cong_matrix_src Qops cs absv As Bs nas nbs) (cong_matrix Qops absv As Bs nas nbs)
+  end.
+Definition resq_eqb (a b : res Q) : bool := match a, b with Err, Err => true | Ok x, Ok y => Qeq_bool x y | _, _ => false end.
+Definition resl_eqb (a b : res (list Q)) : bool := match a, b with Err, Err => true | Ok x, Ok y => q_list_eqb x y | _, _ => false end.
+
+Fixpoint src_agree (scs : option cong_src) (sci : option ci_src) (slv : option lev_src) (b : body) : bool :=
+  match b with
+  | KCong absv As Bs nas nbs _ => src_cong_ok scs absv As Bs nas nbs
+  | KCongDual absv As Bs nas nbs _ _ _ => src_cong_ok scs absv As Bs nas nbs
+  | KPermute ref fs _ nas nbs _ => src_cong_ok scs true ref fs nas nbs
+  | KPermuteList ref nas ts _ => forallb (fun t => src_cong_ok scs true ref (snd (fst t)) nas (snd t)) ts
+  | KCorrIdx meth ctol f1 f2 n1 n2 _ =>
+      match sci with
+      | None => true
+      | Some ci => resq_eqb (correlation_index_src Qops ci meth ctol f1 f2 n1 n2) (correlation_index Qops meth ctol f1 f2 n1 n2)
+      end
+  | KLev renorm _ M U _ sv eps _ =>
+      match slv with
+      | None => true
+      | Some lv => resl_eqb (leverage_src Qops lv renorm U sv (nrows M) (ncols M) eps)
+                            (leverage_score_dist_any Qops renorm U sv (nrows M) (ncols M) eps)
+      end
+  | KReg _ _ _ _ _ _ _ => true
+  | KRegT _ _ _ _ _ _ => true
+  | KSrc _ _ _ b' => src_agree scs sci slv b'
+  end.
+
+Fixpoint agree_body (b : body) : bool :=
+  match b with
   | KCong absv As Bs nas nbs impl => agree_cong absv As Bs nas nbs impl
   | KCongDual absv As Bs nas nbs vs brute impl => agree_cong_dual absv As Bs nas nbs vs brute impl
   | KPermute ref fs w nas nbs impl => agree_permute ref fs w nas nbs impl
@@ -246,8 +306,11 @@ Definition agree (c : case) : bool :=
       | Err => match impl with Err => true | Ok _ => false end
       | Ok ax =>
         agree_reg which ax yt yp exact impl &&
-        match src with Some f => negb (axis_ok ax yt) || src_agree which ax yt yp f | None => true end
+        match src with Some f => negb (axis_ok ax yt) || src_agree_reg which ax yt yp f | None => true end
       end
+  | KRegT which zs yt yp exact impl => agree_regT which zs yt yp exact impl
+  | KSrc scs sci slv b' => agree_body b' && src_agree scs sci slv b'
   end.
+Definition agree (c : case) : bool := agree_body (snd c).
 Definition ident (c : case) : nat := fst c.
 Definition failing := failing_ids agree ident.
